@@ -68,8 +68,10 @@ class WrapEmulation:
 
 def gen_case(rnd):
     sc = rnd.choice(SCALES)
-    rules = [GM.rule(b"c.*", b"c_$1", scale=sc, help=b"r0", labels=[(b"env", b"x")] if rnd.random() < 0.3 else [])]
-    ops = [GM.load_op((None, rules))]
+    # a ttl that never elapses (2562047h): sweeps in between must not reset any counter
+    huge = 9223369200 * 10**9 if rnd.random() < 0.3 else 0
+    rules = [GM.rule(b"c.*", b"c_$1", scale=sc, help=b"r0", ttl=huge, labels=[(b"env", b"x")] if rnd.random() < 0.3 else [])]
+    ops = [GM.load_op((GM.defaults(ttl=huge) if huge else None, rules))]
     nbig = 0
     for _ in range(rnd.randint(3, 20)):
         v = rnd.choice(VALS)
@@ -79,6 +81,8 @@ def gen_case(rnd):
         if r is not None:
             l += b"|@" + r
         ops += [PE.I(l), "G"]
+        if huge and rnd.random() < 0.3:
+            ops += ["A %d" % rnd.choice([10**9, 3 * 10**9, 3600 * 10**9]), "S", "G"]
     return (15, ("none", 0), ops, dict(nbig=nbig, scale=repr(sc), scale_value=sc))
 
 
